@@ -6,8 +6,8 @@ props = [json.loads(l) for l in open(os.path.join(V, "properties.jsonl")) if l.s
 TECH = "contract-based deductive verification: Verus requires/ensures/invariants/decreases spliced onto the functions extracted from /repo on every run"
 CLAIMS = {
  "C01": ("proof", "wf (link consistency, live targets, rank witnesses, payload tags, free list) is established by new/with_capacity/default/clear and is a proved postcondition of every mutator under contract, for every arena satisfying wf (induction over the call history).", "§4 C01",
-         "client discipline on &mut Node<T> (only Node::get_mut is used on references handed out by get_mut/IndexMut/iter_mut); Arena::get_mut/iter/iter_mut bodies are std one-liners not under contract"),
- "C02": ("proof", "acyclicity is the existence of rank witnesses inside wf; every loop of the mutators has a discharged decreases clause (rewrite_parents, the four ancestor walks, remove_subtree); iterator finiteness follows from the step contracts and the rank measures.", "§4 C02",
+         "client discipline on &mut Node<T> (only Node::get_mut is used on references handed out by get_mut/IndexMut/iter_mut; the link fields are crate-private); the result of Arena::iter/iter_mut is std's slice iterator (no view in vstd)"),
+ "C02": ("proof", "acyclicity is the existence of rank witnesses inside wf; every loop of the mutators has a discharged decreases clause (rewrite_parents, the four ancestor walks, remove_subtree); iterator finiteness follows from the step contracts and the rank measures; lemma_parent_walk_bound: the parent walk from a live node reaches a parentless node in height(i) < |live nodes| steps (pigeonhole).", "§4 C02",
          "termination of the external_body functions listed in the evidence is not covered"),
  "C03": ("proof", "exact link-level postconditions (moved node, closed gap, new neighbours, every other field of every other slot unchanged) on detach, the four checked inserts, their unchecked forms, append_value and the helpers they are built from.", "§4 C03", "none beyond the common trusted base"),
  "C04": ("proof", "remove: exact link-level effect (children spliced into x's place, every field of every other slot unchanged), payload and free-list frame. remove_subtree: exactly x and its descendants are removed, once each, and every slot outside the subtree keeps all links, its generation and its payload (loop invariant rs_inv), plus well-formedness and termination.", "§4 C04", "none beyond the common trusted base"),
@@ -15,12 +15,12 @@ CLAIMS = {
  "C06": ("proof", "stamp transitions: free_node maps a live stamp g to -(g+1) keeping the high-water mark, Node::reuse yields high-water+1, new_node returns exactly that stamp, every other function leaves stamps unchanged (frame clauses); overflow freedom of the i16 arithmetic is an obligation.", "§4 C06", "machine integers are modelled exactly by Verus (overflow is an obligation)"),
  "C07": ("proof", "ghost free-list sequence: pop_front hands out the oldest free slot, free_node appends exactly once (or retires an exhausted slot), new_node recycles before growing and returns a slot that held no live node, all other slots untouched.", "§4 C07", "Vec<Node<T>> never holds usize::MAX elements (axiom_vec_node_len)"),
  "C08": ("proof", "payload and stamp frame clauses on every function under contract; get/get_mut/Index/IndexMut address exactly the slot of the id. 'Dropped exactly once' rests on Rust ownership and forbid(unsafe_code) and is a stated assumption.", "§4 C08", "Rust ownership semantics for Drop; Verus does not model Drop"),
- "C09": ("proof", "constructors and step functions of all nine traversals are under contract: sibling/children iterators against the ghost deque walk(node) / children_seq(node) (the documented order), ancestors/predecessors/reverse_children step laws, next_traverse/prev_traverse equal the documented depth-first step and are proved mutually inverse, Traverse/ReverseTraverse stop exactly at End(root)/Start(root), Descendants::next returns the next Start edge of Traverse. The whole-tour theorem (balanced sequence, confinement to the subtree, pre-order of descendants) is not yet a discharged obligation and is not claimed.", "§4 C09", "the whole-tour characterisation is open (see DESIGN.md); step laws and inverse law are proved"),
+ "C09": ("proof", "constructors and step functions of all nine traversals are under contract: sibling/children iterators against the ghost deque walk(node) / children_seq(node) (the documented order), ancestors/predecessors/reverse_children step laws, next_traverse/prev_traverse equal the documented depth-first step and are proved mutually inverse, Traverse/ReverseTraverse stop exactly at End(root)/Start(root), Descendants::next returns the next Start edge of Traverse. Whole-sequence theorems as lemmas over those contracts: traverse = tour_node (balanced, pre-order, confined to the subtree), reverse_traverse = its reversal, descendants = preorder_node (lemma_descendants_is_preorder).", "§4 C09", "predecessors only as a step law (previous sibling, else parent), not as a closed-form sequence"),
  "C10": ("proof", "next/next_back of children, following_siblings and preceding_siblings are verified against a ghost deque: front pulls pop the front, back pulls pop the back, both fused at empty; the three constructors are proved to establish the deque with the documented sequence (including parentless nodes, where the far end is found by walking).", "§4 C10", "none beyond the common trusted base"),
- "C11": ("proof", "accessor contracts: get/Index/IndexMut/get_node_id_at/count/is_empty/as_slice/usize::from/NonZeroUsize::from agree with the slot view (proved). get_node_id (raw pointer arithmetic) is outside Verus: two Kani harnesses check the round trip on arenas of at most 3 slots with one removal and one recycling; that part is BOUNDED and not counted as proved.", "§4 C11", "iter()/iter_mut()/Display delegate to std; get_node_id only bounded (Kani, <= 3 slots); a node of another arena cannot be checked in CBMC's pointer model"),
+ "C11": ("proof", "accessor contracts: get/Index/IndexMut/get_node_id_at/count/is_empty/as_slice/usize::from/NonZeroUsize::from agree with the slot view (proved). get_node_id (raw pointer arithmetic) is outside Verus: Kani harnesses check the round trip on arenas of at most 3 slots with one removal and one recycling (quick tier: two harnesses, ~1 min; thorough tier: three, ~15 min); that part is BOUNDED and not counted as proved.", "§4 C11", "iter()/iter_mut()/Display delegate to std; get_node_id only bounded (Kani, <= 3 slots); a node of another arena cannot be checked in CBMC's pointer model"),
  "C12": ("proof", "a removed slot has no links (part of wf, hence after every operation), no link of a live node targets a removed slot or an old generation, inserts with a removed id in either position are refused without change, Node::reuse starts with no links.", "§4 C12", "none beyond the common trusted base"),
- "C17": ("other", "restricted claim: the extraction is repeated for all 16 subsets of {std, macros, par_iter, deser}; the functions under contract are token-identical in every subset (today: one variant), and any variant that differs is verified against the same contracts; par_iter's body is checked syntactically. Whole-crate behaviour (pretty-printed text, serde, macros) is outside the claim.", "§4 C17", "only the functions under contract; identical extracted text is taken as identical behaviour because their only dependencies are core/alloc"),
- "C13": ("proof", "new/default/with_capacity/clear all yield the same three fields (empty, no free slots); reserve/with_capacity change nothing observable; every contract is a function of the three fields that derive(PartialEq) compares.", "§4 C13", "derive(Clone, PartialEq) are structural; Vec capacity guarantees are std's"),
+ "C17": ("other", "restricted claim: the extraction is repeated for all 16 subsets of {std, macros, par_iter, deser}; the functions under contract are token-identical in every subset (today: one variant; cfg attributes inside bodies are evaluated per subset); if variants differ, a bounded differential run of the real crate built with each variant's features looks for calls whose results differ (replayable witness), and every differing variant is verified against the same contracts; par_iter's body is checked syntactically. Whole-crate behaviour (pretty-printed text, serde, macros) is outside the claim.", "§4 C17", "only the functions under contract; identical extracted text is taken as identical behaviour because their only dependencies are core/alloc"),
+ "C13": ("proof", "new/default/with_capacity/clear all yield the same three fields (empty, no free slots); reserve/with_capacity change nothing observable; every contract is a function of the three fields that derive(PartialEq) compares; the derive lists of Arena/Node/NodeData/NodeId/NodeStamp are themselves an obligation (a type that no longer derives Clone/PartialEq/Eq fails C13).", "§4 C13", "derive(Clone, PartialEq) are structural; Vec capacity guarantees are std's"),
 }
 NA = {
  "C14": "the pretty printer is &str scanning into fmt::Formatter; the installed Verus rejects str byte reasoning and format_args!, so no contract within reach can state the output text",
@@ -38,10 +38,10 @@ for p in props:
             "quick_cmd": "./check %s --tier quick" % pid,
             "thorough_cmd": "./check %s --tier thorough" % pid,
             "evidence_file": "/verif/evidence/%s.json" % pid,
-            "replay_cmd_template": "cat {path}",
+            "replay_cmd_template": "./check --replay {path}",
             "engine": "vx",
             "level_claimed": {"category": cat, "text": text, "design_ref": ref},
-            "level_note": note + "; common trusted base: Verus+Z3, extraction rules R1-R7, panic primitives as obligations, structural derives, NonZeroUsize extensionality",
+            "level_note": note + "; common trusted base: Verus+Z3, extraction rules R0-R7, panic primitives as obligations, structural derives, NonZeroUsize extensionality",
             "technique": TECH if cat == "proof" else "per-feature mechanical extraction + token comparison; differing variants re-verified with Verus against the same contracts",
         })
 m = {
